@@ -1305,7 +1305,7 @@ impl Server {
         let mut query = String::from("");
 
         for (key, value) in parameter_diff {
-            query.push_str(&format!("SET {} TO '{}';", key, value));
+            query.push_str(&format!("SET {} TO '{}';", key, value.replace('\'', "''")));
         }
 
         let res = self.query(&query).await;
